@@ -37,7 +37,7 @@ def begin_case():
     RETRIEVE_EVENTS.clear()
     global FORCE_DEDUP_OFF, FORCE_SPEC_RETRIEVE
     FORCE_DEDUP_OFF = False
-    FORCE_SPEC_RETRIEVE = False
+    FORCE_SPEC_RETRIEVE = bool(os.environ.get("EQL_EXPERIMENT_SPEC_RETRIEVE"))   # experiments only, never set by ./check
 
 
 def end_case():
